@@ -77,8 +77,14 @@ int h_gettimeofday(struct timeval *tv, void *) {
     return 0;
 }
 pid_t h_getpid(void) { return 4242; }
+bool g_sysconf_fails = false;
+uint64_t g_sysconf_failed = 0;
 long h_sysconf(int name) {
-    if (name == _SC_PAGESIZE) { simrt::yield_point(simrt::Y_SYSCALL, 13); if (ENV.in_init[ENV.slot()]) ENV.init_pagesize_queries++; }
+    if (name == _SC_PAGESIZE) {
+        simrt::yield_point(simrt::Y_SYSCALL, 13);
+        if (ENV.in_init[ENV.slot()]) ENV.init_pagesize_queries++;
+        if (g_sysconf_fails) { g_sysconf_failed++; errno = EINVAL; return -1; }
+    }
     return simos_real_sysconf(name);
 }
 int h_open(const char *, int, mode_t) { errno = ENOENT; return -1; }
@@ -117,7 +123,22 @@ int h_posix_memalign(void **out, size_t al, size_t n) {
 }
 void *h_mmap(void *addr, size_t len, int prot, int flags, int fd, off_t off) {
     int d = simos_suspend();
-    void *p = simos_real_mmap(addr, len, prot, flags & ~MAP_POPULATE, fd, off);
+    void *p;
+    if (g_sysconf_fails) {
+        // a platform whose page size the library cannot query: it assumes its 64 KiB default, so the simulated
+        // kernel hands out 64 KiB-aligned mappings (as a kernel with that page size would)
+        const size_t P = 0x10000;
+        unsigned char *raw = (unsigned char *) simos_real_mmap(addr, len + P, prot, flags & ~MAP_POPULATE, fd, off);
+        p = raw;
+        if (raw != MAP_FAILED) {
+            uintptr_t a = ((uintptr_t) raw + P - 1) / P * P;
+            if (a > (uintptr_t) raw) simos_real_munmap(raw, a - (uintptr_t) raw);
+            uintptr_t tail = a + len, rawend = (uintptr_t) raw + len + P;
+            tail = (tail + 4095) & ~(uintptr_t) 4095;
+            if (rawend > tail) simos_real_munmap((void *) tail, rawend - tail);
+            p = (void *) a;
+        }
+    } else p = simos_real_mmap(addr, len, prot, flags & ~MAP_POPULATE, fd, off);
     if (p != MAP_FAILED) simrt::register_block((uintptr_t) p, len, 'M');
     simos_resume(d);
     simrt::yield_point(simrt::Y_SYSCALL, 23);
@@ -500,6 +521,8 @@ struct PlanT {
     int nthreads = 2, strategy = simrt::S_RANDOM, rng = R_DEFAULT;
     unsigned pct_depth = 2;
     bool preinit = false; // main calls sodium_init before the threads start (the "after initialisation" clause on its own)
+    bool inline_main = false;  // thread 0 is the main thread; the others come into existence when first scheduled
+    bool sysconf_fails = false; // environment fault: sysconf(_SC_PAGESIZE) fails inside sodium_init (the library falls back to its default)
     std::vector<std::pair<uint64_t, int>> sched; // strategy "explicit": deviations (decision index, thread) from run-to-completion order
     std::vector<Op> ops;
 };
@@ -573,6 +596,7 @@ Outcome run_plan(const PlanT &p, int strategy, const std::vector<int> &seq_order
     g_thread_ops.assign((size_t) p.nthreads, {});
     for (auto &o : p.ops) g_thread_ops[(size_t) (o.thread % p.nthreads)].push_back(o.op);
     ENV.reset(mix64(p.content_seed, 0xe27));
+    g_sysconf_fails = p.sysconf_fails; g_sysconf_failed = 0;
     g_script_seed = mix64(p.content_seed, 0x5c21); memset(g_script_off, 0, sizeof g_script_off);
     if (p.rng == R_INTERNAL) randombytes_set_implementation(&randombytes_internal_implementation);
     else if (p.rng == R_SCRIPTED) randombytes_set_implementation(&g_scripted_mt);
@@ -584,6 +608,7 @@ Outcome run_plan(const PlanT &p, int strategy, const std::vector<int> &seq_order
     RT.est_steps = 80 * (uint64_t) p.nthreads + 250 * (uint64_t) p.ops.size() + 50; // where PCT places its priority-change points
     RT.reset(p.nthreads, p.sched_seed, strategy, p.pct_depth);
     RT.mark = ENV.in_init;
+    RT.main_inline = p.inline_main && !p.preinit && strategy != simrt::S_SEQUENTIAL; // the reference runs the winner first, whoever that was
     RT.seq_order = seq_order;
     RT.detect_races = detect;
     RT.trace_in = strategy == simrt::S_TRACE ? p.sched : std::vector<std::pair<uint64_t, int>>();
@@ -637,6 +662,8 @@ struct C19 {
         unsigned rc = (unsigned) k.below(10);
         p.rng = rc < 6 ? R_DEFAULT : rc < 8 ? R_INTERNAL : R_SCRIPTED;
         p.preinit = k.chance(1, 5);
+        p.inline_main = !p.preinit && k.chance(1, 2);
+        p.sysconf_fails = k.chance(1, 8);
         size_t per_thread_max = p.nthreads > 8 ? 3 : p.nthreads > 4 ? 6 : (thorough ? 12 : 8);
         for (int t = 0; t < p.nthreads; t++) {
             size_t n = (size_t) o.below(per_thread_max + 1);
@@ -657,7 +684,7 @@ struct C19 {
     static Json to_json(const Plan &p) {
         Json j = Json::object();
         j["knobs"] = p.pk; j["content_seed"] = p.content_seed; j["sched_seed"] = p.sched_seed; j["threads"] = p.nthreads;
-        j["strategy"] = simrt::strategy_name[p.strategy]; j["pct_depth"] = p.pct_depth; j["rng"] = rng_name[p.rng]; j["preinit"] = p.preinit;
+        j["strategy"] = simrt::strategy_name[p.strategy]; j["pct_depth"] = p.pct_depth; j["rng"] = rng_name[p.rng]; j["preinit"] = p.preinit; j["inline_main"] = p.inline_main; j["sysconf_fails"] = p.sysconf_fails;
         if (p.strategy == simrt::S_TRACE) {
             Json sc = Json::array();
             for (auto &d : p.sched) { Json e = Json::array(); e.push(d.first); e.push(d.second); sc.push(e); }
@@ -676,7 +703,7 @@ struct C19 {
         for (int i = 0; i < simrt::S_NSTRATEGIES; i++) if (j.at("strategy").str() == simrt::strategy_name[i]) p.strategy = i;
         p.pct_depth = (unsigned) j.at("pct_depth").u64(2);
         for (int i = 0; i < 3; i++) if (j.at("rng").str() == rng_name[i]) p.rng = i;
-        p.preinit = j.at("preinit").boolean();
+        p.preinit = j.at("preinit").boolean(); p.inline_main = j.at("inline_main").boolean(); p.sysconf_fails = j.at("sysconf_fails").boolean();
         for (auto &d : j.at("schedule_deviations").a) if (d.a.size() == 2) p.sched.push_back({d.a[0].u64(), (int) d.a[1].i64()});
         for (auto &q : j.at("ops").a) {
             Op o; o.thread = (int) q.at("t").i64();
@@ -738,6 +765,10 @@ struct C19 {
         res.count(std::string("knob.rng=") + rng_name[p.rng]);
         res.count("knob.threads=" + std::to_string(p.nthreads));
         res.count(std::string("knob.preinit=") + (p.preinit ? "yes" : "no"));
+        res.count(std::string("knob.inline_main=") + (p.inline_main ? "yes" : "no"));
+        if (g_sysconf_failed) res.count("fault.sysconf_pagesize_failed", g_sysconf_failed);
+        if (RT.lazily_created) res.count("probe.threads_created_when_first_scheduled", RT.lazily_created);
+        if (RT.created_inside_marked) res.count("fault.thread_created_while_creator_inside_sodium_init", RT.created_inside_marked);
         res.count(std::string("knob.cpu_disable=") + cpu_mask_name((unsigned) p.pk.at("cpu_disable").u64()));
         if (RT.preemptions) res.count("fault.preemption", RT.preemptions);
         if (RT.counters.count("probe.lock_contended")) res.count("fault.thread_blocked_on_library_lock", RT.counters["probe.lock_contended"]);
@@ -852,6 +883,8 @@ struct C19 {
         if (p.strategy == simrt::S_PCT && p.pct_depth > 1) { Plan c = p; c.pct_depth--; out.push_back(c); }
         if (p.pk.at("cpu_disable").u64() != NO_RDRAND) { Plan c = p; c.pk["cpu_disable"] = (unsigned) NO_RDRAND; out.push_back(c); }
         if (p.rng != R_DEFAULT) { Plan c = p; c.rng = R_DEFAULT; out.push_back(c); }
+        if (p.inline_main) { Plan c = p; c.inline_main = false; out.push_back(c); }
+        if (p.sysconf_fails) { Plan c = p; c.sysconf_fails = false; out.push_back(c); }
         if (p.strategy != simrt::S_TRACE && p.sched_seed > 3) for (uint64_t s = 1; s <= 3; s++) { Plan c = p; c.sched_seed = s; out.push_back(c); }
         return out;
     }
